@@ -114,6 +114,7 @@ def special_inits(quick, seed):
     five = [c for c in build.third_core_cells(5) if c in ((0, 0), (1, 0), (2, -1), (4, -2), (1, 1), (3, 0), (0, 4))]
     out.append({"rings": 5, "cells": [list(c) for c in five], "seed": seed})
     out.append({"rings": 5, "cells": [list(c) for c in five if tuple(c) != (2, -1)], "seed": seed})
+    out.append({"rings": 3, "cells": [list(c) for c in build.third_core_cells(3)], "seed": seed, "cs": {"trackAssems": True, "zones": "by-ring"}, "pool": [[[0, 0], "IC"], [[1, 0], "OC"]]})
     if not quick:
         out.append({"rings": 4, "cells": [list(c) for c in build.third_core_cells(4)], "pins": True, "seed": seed})
         out.append({"rings": 5, "cells": [list(c) for c in build.third_core_cells(5)], "seed": seed})
@@ -135,6 +136,12 @@ def deep_inits(quick, seed):
     if quick:
         full["ops"] = [op for op in ops if op[0] != "assign" or op[1:] == ["centre", "mgFlux"]]
     out.append((full, DEPTH[tier] - 1))
+    # settings read on the paths of the alphabet (Core.removeAssembly: trackAssems; convert: zones), each
+    # varied on the richest small map with a populated spent fuel pool, and both on the complete map
+    pool = [[[0, 0], "IC"], [[1, 0], "OC"]]
+    out.append(({"rings": 3, "cells": [list(c) for c in small[0]], "seed": seed, "ops": ops, "max_assign": 1, "cs": {"trackAssems": True}, "pool": pool}, DEPTH[tier] - 1))
+    out.append(({"rings": 3, "cells": [list(c) for c in small[0]], "seed": seed, "ops": ops, "max_assign": 1, "cs": {"zones": "by-ring"}, "pool": pool}, DEPTH[tier] - 1))
+    out.append((dict(full, cs={"trackAssems": True, "zones": "by-ring"}, pool=pool), DEPTH[tier] - 2))
     if not quick:
         # two assignments per history, one depth less, on the richest small map
         out.append(({"rings": 3, "cells": [list(c) for c in small[0]], "seed": seed, "ops": ops, "max_assign": MAX_ASSIGN[tier]}, DEPTH[tier] - 1))
@@ -272,8 +279,16 @@ def build_state(init):
         if cell_kind(c) not in ("centre", "lower", "interior"):
             raise RuntimeError("initial cell %s is outside the third-core domain" % (c,))
     seed = int(init.get("seed", 0))
-    spec = build.hex_spec(rings=init["rings"], cells=cells, pins=bool(init.get("pins")))
-    r = build.reactor(spec, seed=seed)
+    pool = {tuple(k): v for k, v in (init.get("pool") or [])}
+    spec = build.hex_spec(rings=init["rings"], cells=cells, pins=bool(init.get("pins")), sfp=True, sfp_contents=pool)
+    over = dict(init.get("cs") or {})
+    zones = over.pop("zones", None)
+    if zones == "by-ring":
+        over["zoneDefinitions"] = zone_definitions(cells)
+    cs = build.settings(**over) if over else None
+    r = build.reactor(spec, cs=cs, seed=seed)
+    if zones:
+        r.core.buildManualZones(cs)
     decorate(r, cells, seed)
     S = State()
     S.gc = gc
@@ -289,7 +304,30 @@ def build_state(init):
         raise RuntimeError("built core occupies %s, asked for %s" % (sorted(S.orig), sorted(cells)))
     S.rings_scan = init["rings"] + 1
     S.edge_ops = 0
+    S.pool = r.excore.get("sfp") if hasattr(r, "excore") else None
+    S.pool_names = sorted(a.getName() for a in (S.pool or []))
+    if sorted(pool) and len(S.pool_names) != len(pool):
+        raise RuntimeError("the declared spent fuel pool holds %s, asked for %d assemblies" % (S.pool_names, len(pool)))
+    S.zone_of = {}
+    if zones:
+        for c, a in S.orig.items():
+            z = r.core.zones.findZoneItIsIn(a)
+            S.zone_of[c] = None if z is None else z.name
+        if None in S.zone_of.values():
+            raise RuntimeError("zone definitions do not cover the map: %s" % S.zone_of)
+    S.ever = {}  # name -> block names of every non-original assembly that has been in the core
     return S
+
+
+def zone_definitions(cells):
+    """One manual zone per hexagon ring (labels from ring/position, C07)."""
+    from armi.reactor import grids
+
+    by_ring = {}
+    for c in cells:
+        ring, pos = grids.HexGrid.indicesToRingPos(*c)
+        by_ring.setdefault(ring, []).append("%03d-%03d" % (ring, pos))
+    return ["ring-%d: %s" % (r, ", ".join(sorted(v))) for r, v in sorted(by_ring.items())]
 
 
 # ---------------------------------------------------------------------------------------------
@@ -877,6 +915,12 @@ def check_state(S, M, opname):
             bad("copy-is-source", "cell %s holds the source object itself" % (c,))
     # --- unique identities
     anames, bnames, anums = [], [], []
+    for a in S.pool or ():  # names and numbers are unique across the core AND the spent fuel pool
+        anames.append(a.getName())
+        anums.append(int(a.p.assemNum))
+        bnames += [b.getName() for b in a]
+    if sorted(a.getName() for a in (S.pool or ())) != S.pool_names:
+        bad("pool-contents", "the spent fuel pool holds %s, it held %s before" % (sorted(a.getName() for a in S.pool), S.pool_names))
     for a in core:
         anames.append(a.getName())
         anums.append(int(a.p.assemNum))
@@ -889,9 +933,28 @@ def check_state(S, M, opname):
     for what, xs in (("serial-numbers", serials), ("assembly-names", anames), ("block-names", bnames), ("assembly-numbers", anums)):
         if len(set(xs)) != len(xs):
             bad("unique-" + what, "%s are not unique: %s" % (what, sorted(x for x in set(xs) if xs.count(x) > 1)[:4]))
+    # --- zones: location -> zone lookups of the originals resolve as before; a copy is in its source's zone
+    if S.zone_of:
+        for c in sorted(M.orig):
+            z = core.zones.findZoneItIsIn(S.orig[c])
+            if (None if z is None else z.name) != S.zone_of[c]:
+                bad("zone-of-original", "the assembly at %s is found in zone %s, it was in %s" % (c, z and z.name, S.zone_of[c]))
+        if M.domain == "full":
+            for c in sorted(M.copies):
+                z = core.zones.findZoneItIsIn(assembly_at(S, c))
+                if (None if z is None else z.name) != S.zone_of[M.copies[c]["src"]]:
+                    bad("zone-of-copy", "the copy at %s is found in zone %s, its source at %s is in %s" % (c, z and z.name, M.copies[c]["src"], S.zone_of[M.copies[c]["src"]]))
     # --- lookup tables
     vs += [("c13/%s/%s%s" % (opname, k, ("/" + qual) if qual else ""), m) for k, m in check_lookups(S)]
     return vs, o
+
+
+def note_copies(S):
+    """Called after every operation: names of the non-original assemblies currently in the core."""
+    origs = {id(a) for a in S.orig.values()}
+    for a in S.core:
+        if id(a) not in origs:
+            S.ever[a.getName()] = [b.getName() for b in a]
 
 
 def check_lookups(S):
@@ -913,14 +976,38 @@ def check_lookups(S):
             vs.append(("lookup-childrenByLocator", "childrenByLocator[%s] is %s whose locator is %s" % (loc, a, a.spatialLocator)))
     if set(cbl) != set(by_cell) or any(cbl[k] is not by_cell[k] for k in cbl if k in by_cell):
         vs.append(("lookup-childrenByLocator", "childrenByLocator holds cells %s, the children sit at %s" % (sorted(set(cbl) - set(by_cell)) or sorted(cbl)[:5], sorted(set(by_cell) - set(cbl)) or "the same cells (other objects)")))
+    pooled = list(S.pool or ())
     abn = core.assembliesByName
     want = {a.getName(): a for a in kids}
-    if set(abn) != set(want) or any(abn[k] is not want[k] for k in abn if k in want):
-        vs.append(("lookup-assembliesByName", "assembliesByName keys %s; children missing from it %s" % (sorted(set(abn) - set(want))[:5], sorted(set(want) - set(abn))[:5])))
+    okp = {a.getName(): a for a in pooled}  # assemblies tracked in the pool may be registered too (C14's business)
+    stale = sorted(k for k in abn if abn[k] is not want.get(k) and abn[k] is not okp.get(k))
+    if stale or set(want) - set(abn):
+        vs.append(("lookup-assembliesByName", "assembliesByName resolves %s to objects that are neither in the core nor in the pool; children missing from it %s" % (stale[:5], sorted(set(want) - set(abn))[:5])))
     bbn = core.blocksByName
     wantb = {b.getName(): b for a in kids for b in a}
-    if set(bbn) != set(wantb) or any(bbn[k] is not wantb[k] for k in bbn if k in wantb):
-        vs.append(("lookup-blocksByName", "blocksByName has stale keys %s; blocks missing from it %s" % (sorted(set(bbn) - set(wantb))[:5], sorted(set(wantb) - set(bbn))[:5])))
+    okb = {b.getName(): b for a in pooled for b in a}
+    staleb = sorted(k for k in bbn if bbn[k] is not wantb.get(k) and bbn[k] is not okb.get(k))
+    if staleb or set(wantb) - set(bbn):
+        vs.append(("lookup-blocksByName", "blocksByName has stale keys %s; blocks missing from it %s" % (staleb[:5], sorted(set(wantb) - set(bbn))[:5])))
+    # every assembly that is not an original and has been in the core: once purged it must not be found by name
+    present = set(want)
+    note_copies(S)
+    for name in sorted(set(S.ever) - present):
+        try:
+            got = core.getAssemblyByName(name)
+        except KeyError:
+            got = None
+        if got is not None:
+            vs.append(("lookup-purged-assembly-found", "getAssemblyByName(%s) returns %s, which was purged from the core" % (name, got)))
+            break
+        for bn in S.ever[name]:
+            try:
+                gotb = core.getBlockByName(bn)
+            except KeyError:
+                gotb = None
+            if gotb is not None:
+                vs.append(("lookup-purged-block-found", "getBlockByName(%s) returns a block of the purged assembly %s" % (bn, name)))
+                break
     for a in kids:
         if core.getAssemblyByName(a.getName()) is not a:
             vs.append(("lookup-getAssemblyByName", "getAssemblyByName(%s) does not return the child" % a.getName()))
@@ -1129,6 +1216,7 @@ def _run(item, every_step):
         last = k == len(hist) - 1
         opname = op[0]
         out, vs = step(S, M, op, every_step or last)
+        note_copies(S)
         outcomes.append(out)
         steps += 1
         if k < len(outs) and outs[k] != out:
@@ -1223,7 +1311,7 @@ def run(ctx):
         total,
         {
             "deep_depth": DEPTH[ctx.tier],
-            "deep_searches": [{"cells": i["cells"], "pins": bool(i.get("pins")), "depth": d, "max_assign": i["max_assign"], "operations": len(i["ops"])} for i, d in deep],
+            "deep_searches": [{"cells": i["cells"], "pins": bool(i.get("pins")), "settings": i.get("cs") or "default", "pool": len(i.get("pool") or []), "depth": d, "max_assign": i["max_assign"], "operations": len(i["ops"])} for i, d in deep],
             "wide_maps": len(inits),
             "wide_scripts": {k: SCRIPTS[k] for k in names_},
             "wide_scripts_4ring_family": [] if quick else SCRIPTS_THOROUGH_WIDE,
